@@ -6,55 +6,9 @@
   single-member Or, append `deleted_at IS NULL` (or the zero-value comparison), set the marker.
 -/
 import GormModel.Lemmas.Where
+import GormModel.Lemmas.StmtReuse
 import GormModel.Props.C02
 namespace Gorm
-
-/-- the user's conditions after the regrouping step -/
-def regroup (es : List Ex) : List Ex := if es.any Ex.isSingleOr then (mkAnd es).toList else es
-
-theorem softDeleteModify_exprs (f : Atom) (s : WhereState) (h : s.softEnabled = false) :
-    (softDeleteModify false f s).exprs = some (regroup (s.exprs.getD []) ++ [.atom f]) := by
-  simp [softDeleteModify, h, regroup]
-
-theorem regroup_noSingleOr (es : List Ex) : noSingleOr (regroup es) = true := by
-  unfold regroup
-  by_cases h : es.any Ex.isSingleOr = true
-  · simp only [h, if_true]
-    cases es with
-    | nil => simp [mkAnd, noSingleOr]
-    | cons e r =>
-      cases r with
-      | nil =>
-        simp only [mkAnd]
-        by_cases ho : e.isOr = true
-        · simp [ho, noSingleOr, Ex.isSingleOr]
-        · -- impossible: the only member is a single-member Or, hence an Or
-          simp only [List.any_cons, List.any_nil, Bool.or_false] at h
-          cases e <;> simp_all [Ex.isSingleOr, Ex.isOr]
-      | cons e2 r2 => simp [mkAnd, noSingleOr, Ex.isSingleOr]
-  · have h' : es.any Ex.isSingleOr = false := by simpa using h
-    simp only [h', Bool.false_eq_true, if_false]
-    simp only [noSingleOr, List.all_eq_true, Bool.not_eq_true']
-    intro e he
-    have := List.any_eq_false.mp h' e he
-    simpa using this
-
-theorem whereExprs_with_filter (es : List Ex) (f : Atom) :
-    whereExprs (regroup es ++ [.atom f]) = regroup es ++ [.atom f] := by
-  have hn := regroup_noSingleOr es
-  cases hr : regroup es with
-  | nil => simp [whereExprs, unwrapSingleAnd, swapFirst, firstNonSingleOr, Ex.isSingleOr]
-  | cons e r =>
-    rw [hr] at hn
-    have he : e.isSingleOr = false := by
-      simp only [noSingleOr, List.all_cons, Bool.and_eq_true, Bool.not_eq_true'] at hn; exact hn.1
-    cases r with
-    | nil =>
-      show swapFirst (unwrapSingleAnd [e, .atom f]) = _
-      rw [unwrapSingleAnd_of_two, swapFirst_of_head _ _ he]; rfl
-    | cons e2 r2 =>
-      show swapFirst (unwrapSingleAnd (e :: e2 :: (r2 ++ [.atom f]))) = _
-      rw [unwrapSingleAnd_of_two, swapFirst_of_head _ _ he]; rfl
 
 /-- MAIN: whatever conditions the user supplied — none, a leading Or, Not, groups, raw strings — the
     soft-delete filter is a TOP-LEVEL CONJUNCT of the rendered WHERE: the text means
@@ -73,6 +27,83 @@ theorem C08_deleted_invisible (env : Nat → V3) (es : List Ex) (f : Atom)
     (hsel : sqlEval env (whereBuild (regroup es ++ [.atom f])) = .t) : cmpVal env f = .t := by
   rw [C08_filter_conjunct env es f h] at hsel
   exact ((V3.and_eq_t _ _).mp hsel).2
+
+/-- appending AND-joined members to a conjunction list ANDs their meanings to the whole -/
+theorem listSpec_append_list (env : Nat → V3) (l post : List Ex) (hl : noSingleOr l = true) (hp : noSingleOr post = true) :
+    listSpec env .and (l ++ post) = andUnits env (listSpec env .and l) post := by
+  induction post generalizing l with
+  | nil => simp [andUnits]
+  | cons x r ih =>
+    simp only [noSingleOr, List.all_cons, Bool.and_eq_true, Bool.not_eq_true'] at hp
+    obtain ⟨hx, hr⟩ := hp
+    have hr' : noSingleOr r = true := by simpa [noSingleOr] using hr
+    have hlx : noSingleOr (l ++ [x]) = true := by
+      simp only [noSingleOr, List.all_append, Bool.and_eq_true] at hl ⊢
+      exact ⟨hl, by simp [hx]⟩
+    have := ih (l ++ [x]) hlx hr'
+    rw [List.append_assoc, List.singleton_append] at this
+    rw [this, listSpec_append env l x hl hx]
+    rfl
+
+/-- the filter followed by later additions: `Where.Build` neither unwraps nor swaps -/
+theorem whereExprs_with_filter_post (es : List Ex) (f : Atom) (post : List Ex) :
+    whereExprs (regroup es ++ .atom f :: post) = regroup es ++ .atom f :: post := by
+  have hn := regroup_noSingleOr es
+  cases hr : regroup es with
+  | nil =>
+    show swapFirst (unwrapSingleAnd (.atom f :: post)) = _
+    have hu : unwrapSingleAnd (.atom f :: post) = .atom f :: post := by cases post <;> rfl
+    rw [hu, swapFirst_of_head _ _ (by rfl)]; rfl
+  | cons e r =>
+    rw [hr] at hn
+    have he : e.isSingleOr = false := by
+      simp only [noSingleOr, List.all_cons, Bool.and_eq_true, Bool.not_eq_true'] at hn; exact hn.1
+    cases r with
+    | nil =>
+      show swapFirst (unwrapSingleAnd (e :: .atom f :: post)) = _
+      rw [unwrapSingleAnd_of_two, swapFirst_of_head _ _ he]; rfl
+    | cons e2 r2 =>
+      show swapFirst (unwrapSingleAnd (e :: e2 :: (r2 ++ .atom f :: post))) = _
+      rw [unwrapSingleAnd_of_two, swapFirst_of_head _ _ he]; rfl
+
+/-- REUSE: on a statement that already carries the filter (installed by an earlier finisher), conditions added later
+    by Where/Not/inline/primary key (`post`, none of them an `Or`) leave the filter a TOP-LEVEL CONJUNCT -/
+theorem C08_filter_conjunct_reuse (env : Nat → V3) (es : List Ex) (f : Atom) (post : List Ex)
+    (h : whereSound (regroup es ++ .atom f :: post) = true) (hp : noSingleOr post = true) :
+    sqlEval env (whereBuild (regroup es ++ .atom f :: post)) =
+      andUnits env ((listSpec env .and (regroup es)).and (cmpVal env f)) post := by
+  rw [C02_where_units env _ h, whereExprs_with_filter_post]
+  have hl : noSingleOr (regroup es ++ [.atom f]) = true := by
+    have hn := regroup_noSingleOr es
+    simp only [noSingleOr, List.all_append, Bool.and_eq_true] at hn ⊢
+    exact ⟨hn, by simp [Ex.isSingleOr]⟩
+  have hsplit : regroup es ++ .atom f :: post = (regroup es ++ [.atom f]) ++ post := by simp
+  rw [hsplit, listSpec_append_list env _ _ hl hp,
+    listSpec_append env _ _ (regroup_noSingleOr es) (by rfl), unitVal_cmp]
+
+theorem andUnits_eq_t (env : Nat → V3) (cur : V3) (l : List Ex) (h : andUnits env cur l = .t) : cur = .t := by
+  induction l generalizing cur with
+  | nil => exact h
+  | cons e r ih => exact ((V3.and_eq_t _ _).mp (ih _ h)).1
+
+theorem C08_deleted_invisible_reuse (env : Nat → V3) (es : List Ex) (f : Atom) (post : List Ex)
+    (h : whereSound (regroup es ++ .atom f :: post) = true) (hp : noSingleOr post = true)
+    (hsel : sqlEval env (whereBuild (regroup es ++ .atom f :: post)) = .t) : cmpVal env f = .t := by
+  rw [C08_filter_conjunct_reuse env es f post h hp] at hsel
+  exact ((V3.and_eq_t _ _).mp (andUnits_eq_t env _ post hsel)).2
+
+/-- FINDING F25 (kernel-checked): `h.Where(a).Count(&n)` installs the filter on h's statement; a later `h.Or(b).Find(..)`
+    appends the Or AFTER the filter: `a AND deleted_at IS NULL OR b` — a soft-deleted row satisfying `b` is selected -/
+theorem C08_or_after_filter_counterexample :
+    let a : Atom := { col := "a", kind := .eq, val := .scalar, id := 0 }
+    let b : Atom := { col := "b", kind := .eq, val := .scalar, id := 1 }
+    let f : Atom := { col := "deleted_at", kind := .eq, val := .nil, id := 2 }
+    let cfg : StmtCfg := { soft := some f, modelKey := [], allowGlobal := false }
+    let s := stmtRun cfg StmtState.fresh [.cond .where_ (.col a), .fin .count [] false, .cond .or_ (.col b), .fin .find [] false]
+    let env := envOf [.f, .t, .f]   -- a fails, b holds, the row IS soft-deleted
+    s.w.softEnabled = true ∧ noSingleOr ((s.w.exprs.getD []).drop 2) = false ∧
+    sqlEval env (whereBuild (s.w.exprs.getD [])) = .t ∧ cmpVal env f = .f := by
+  decide
 
 /-- the statement modifier applied to a chain's WHERE state yields exactly that list -/
 theorem C08_modify_shape (es : List Ex) (f : Atom) :
